@@ -11,7 +11,7 @@ from lib.common import *
 ASSUME = ["entries are classified by lstat + the shape of the link text (absolute or 'type:[ino]' = magic-link)",
           "files in /proc may legitimately refuse to open (permissions, EIO, ...): for class 'file' any errno other than ENOTDIR/ELOOP/EXDEV/ENOENT is accepted in place of success, but both resolvers must agree",
           "the handle is ProcfsHandle::new() (private fsopen instance for the privileged worker); both procfs resolvers are selected by masking openat2"]
-DECO = {"": "%s", "/": "%s/", "/.": "%s/.", "/..": "%s/..", "/nx-child": "%s/nx-child", "./": "./%s"}
+DECO = {"": "%s", "/": "%s/", "/.": "%s/.", "/..": "%s/..", "/nx-child": "%s/nx-child", "./": "./%s", "/..NUL": "%s/..\x00"}
 OPS = {"open_rdonly": ("proc_open", O["RDONLY"] | O["NONBLOCK"]), "open_path": ("proc_open", O["PATH"]), "open_dir": ("proc_open", O["RDONLY"] | O["DIRECTORY"] | O["NONBLOCK"]),
        "open_follow_path": ("proc_open_follow", O["PATH"]), "open_follow_dir": ("proc_open_follow", O["PATH"] | O["DIRECTORY"]), "readlink": ("proc_readlink", 0),
        "open_creat": ("proc_open", O["CREAT"] | O["RDWR"]), "open_follow_creat": ("proc_open_follow", O["CREAT"] | O["RDWR"]), "open_tmpfile": ("proc_open", O["TMPFILE"] | O["RDWR"])}
@@ -100,7 +100,8 @@ def main(tier_):
             if not acceptable(exp, cls, kind, final):
                 v.violation(dict(check="proc-class", kind=kind, deco=d, op=o, resolver=bname, got=cls, want=exp, name=name if kind != "file" else "<file>"),
                             "C07: %s(%s, %r) [%s resolver] on a %s entry gave %s; the class table (ProcClass.tla) expects %s" % (o, base, path, bname, kind, cls, exp), dict(base=base, path=path, op=o))
-        if d != "/.." and len(g) == 2 and g["openat2"] != g["opath"]:
+        # ("/..NUL": both must fail -- the class rule above -- but the emulated walk may meet another error before it reaches the NUL component)
+        if d not in ("/..", "/..NUL") and len(g) == 2 and g["openat2"] != g["opath"]:
             v.violation(dict(check="proc-resolvers-agree", kind=kind, deco=d, op=o, openat2=g["openat2"], opath=g["opath"], name=name if kind != "file" else "<file>"),
                         "C07: %s(%s, %r) on a %s entry: openat2 resolver gives %s, emulated resolver gives %s" % (o, base, path, kind, g["openat2"], g["opath"]), dict(base=base, path=path, op=o))
         if len(samples) < 6 and kind in ("magic", "symdir", "symfile") and d in ("/", "/nx-child"):
